@@ -102,12 +102,27 @@ def _dispatch(code, line):
     return None
 
 
+INSTR_FILES = ('_parser_queue.py',)
+
+
+def _dispatch_instr(code, offset):
+    s = CURRENT
+    if s is not None and getattr(s, 'instr_files', None):
+        return s._instr_cb(code, offset)
+    return None
+
+
 def install(codes):
-    """Enable LINE events on the monitored code objects once per process."""
+    """Enable LINE events on the monitored code objects once per process (and INSTRUCTION events on
+    the few files for which pre-emption inside a source line is explored)."""
     global _HOOK
     if _HOOK is None:
         _HOOK = lines.LineHook(lines.TOOL_SCHED, 'vmon-sched', codes)
         _HOOK.start(_dispatch)
+        mon.register_callback(lines.TOOL_SCHED, mon.events.INSTRUCTION, _dispatch_instr)
+        for c in codes:
+            if c.co_filename.endswith(INSTR_FILES):
+                mon.set_local_events(lines.TOOL_SCHED, c, lines.LINE | mon.events.INSTRUCTION)
 
 
 def uninstall():
@@ -118,13 +133,14 @@ def uninstall():
 
 
 class Scheduler:
-    def __init__(self, codes, strategy, max_steps=20000, candidate_files=None, active_files=None):
+    def __init__(self, codes, strategy, max_steps=20000, candidate_files=None, active_files=None, instr_files=None):
         self.codes = codes
         self.strategy = strategy
         self.max_steps = max_steps
         self.candidate_files = candidate_files
         self.active_files = active_files      # None = every instrumented file yields
         self._active_cache = {}
+        self.instr_files = instr_files        # files in which every bytecode instruction is a yield point
         self.step = 0
         self.cur = None
         self.sems = {}
@@ -212,6 +228,17 @@ class Scheduler:
             if not a:
                 return None
         self.yield_point(tid, code, line, self._is_candidate(code))
+        return None
+
+    def _instr_cb(self, code, offset):
+        tid = self.ident.get(_thread.get_ident())
+        if tid is None:
+            return None
+        if self.aborted:
+            raise SchedAbort(self.aborted)
+        if self.cur != tid or not code.co_filename.endswith(self.instr_files):
+            return None
+        self.yield_point(tid, code, -offset, True)
         return None
 
     def free_switch(self, tid):
@@ -328,7 +355,9 @@ class SchedLock:
         if tid is None or not self.real:
             return True
         s.yield_point(tid, None, None, True)
-        if not blocking and self.owner is not None and self.owner != tid:
+        if (not blocking or (timeout is not None and timeout >= 0)) and self.owner is not None and self.owner != tid:
+            # a try-acquire fails; so may a timed acquire: the holder can be arbitrarily slow, and the
+            # scheduler explores exactly that case (virtual time - no wall-clock waiting)
             s.contention += 1
             return False
         while self.owner is not None and self.owner != tid:
